@@ -18,6 +18,7 @@ pub mod c16;
 pub mod c17;
 pub mod c18;
 pub mod c19;
+pub mod c20;
 pub mod faults;
 
 use std::fs;
@@ -47,6 +48,7 @@ pub fn dispatch(ctx: &Ctx) -> bool {
         "C17" => c17::run(ctx),
         "C18" => c18::run(ctx),
         "C19" => c19::run(ctx),
+        "C20" => c20::run(ctx),
         _ => return false,
     }
     true
